@@ -521,6 +521,27 @@ class Gen:
         return mod
 
     # ---------------------------------------------------------------- executable modules
+    def probe_label_position(self, mod):
+        """a label operand where the scanner does not expect one: extra argument of a vararg call"""
+        pr = dict(kind="proto", name=self.name(False), res=[], args=[("i64", self.name(False), 0)], vararg=True)
+        imp = dict(kind="import", name=self.name(False))
+        fn = dict(kind="func", name=self.name(False), res=[], args=[], vararg=False, locals=[("i64", "x")], globals=[],
+                  body=[], labels=[], regs=[("i64", "x")])
+        l = self.new_label(fn)
+        fn["body"] = [("label", l), ("call", [("ref", pr["name"]), ("ref", imp["name"]), ("r", "x"), ("l", l)]), ("ret", [])]
+        mod["items"] += [pr, imp, fn]
+        self.probe_done = True
+
+    def probe_ref_undeclared(self, mod):
+        """an item created while the function is still open is listed after the function that uses it"""
+        fn = dict(kind="func", name=self.name(False), res=["i64"], args=[], vararg=False, locals=[("i64", "x")], globals=[],
+                  body=[], labels=[], regs=[("i64", "x")], inner=[])
+        late = dict(kind="bss", name=self.name(False), len=8)
+        fn["inner"] = [late]
+        fn["body"] = [("mov", [("r", "x"), ("ref", late["name"])]), ("ret", [("r", "x")])]
+        mod["items"].append(fn)
+        self.probe_done = True
+
     def exec_module(self):
         """module whose functions can be interpreted: integer code, forward branches only, memory inside
         its own bss/data items, calls to earlier functions"""
@@ -725,6 +746,8 @@ def describe(mods, nlabels, runs=()):
                 lines.append("proto %s %s" % (enc_name(it["name"]), sig_desc(it)))
             elif k == "func":
                 lines.append("func %s %s" % (enc_name(it["name"]), sig_desc(it)))
+                for inner in it.get("inner", []):
+                    lines.append("bss %s %d" % (opt(inner["name"]), inner["len"]))
                 for (t, n) in it["locals"]:
                     lines.append("local %s %s" % (t, enc_name(n)))
                 for (t, n, h) in it["globals"]:
@@ -816,6 +839,8 @@ class FreeForm:
             return str(v + (1 << 64)) if v < 0 else str(v)
         if k == 5 and neg:
             return str(v + (1 << 64))            # two's complement spelling of a negative value
+        if k == 6 and neg:
+            return "0x%x" % (v + (1 << 64))      # the same in hexadecimal
         return sg + str(a)
 
     def string(self, b):
